@@ -105,11 +105,17 @@ pub fn run_single(file: &File, lang: Lang, cfg: &Cfg) -> Result<RunOk, (RunFail,
 }
 
 pub fn run_source(source: &str, lang: Lang, cfg: &Cfg) -> Result<RunOk, (RunFail, String)> {
+    run_source_in_crate(source, "", lang, cfg)
+}
+
+/// As `run_source`, the file belonging to crate `krate` (multi-file mode names the output after it).
+pub fn run_source_in_crate(source: &str, krate: &str, lang: Lang, cfg: &Cfg) -> Result<RunOk, (RunFail, String)> {
     let source = source.to_string();
     if let Err(e) = syn_ok(&source) {
         return Err((RunFail::Render(e), source));
     }
-    let o = pipeline::run(&[SrcFile::single(source.clone())], lang, cfg);
+    let src_file = if krate.is_empty() { SrcFile::single(source.clone()) } else { SrcFile { crate_name: krate.into(), path: format!("ws/{krate}/src/lib.rs"), source: source.clone() } };
+    let o = pipeline::run(&[src_file], lang, cfg);
     let text = match &o {
         Outcome::Ok(m) => m.values().next().cloned().unwrap_or_default(),
         _ => return Err((RunFail::Pipeline(o), source)),
